@@ -181,6 +181,13 @@ class GraphWorld:
     def node(self, i):
         return self.order[i]
 
+    def workload(self):
+        if not hasattr(self, "_wl"):
+            from workload import Workload
+
+            self._wl = Workload.from_task_graphs({self.tg.name: self.tg})
+        return self._wl
+
     # -- the case for the Lean driver ---------------------------------------
     def lean_graph(self):
         inv = {v: k for k, v in self.label_pos.items()}
@@ -281,11 +288,12 @@ class GraphWorld:
                 rel, can = self.tg.notify_task_completion(self.node(op["n"]), et(op["time"]))
                 ret = {"released": [self.pos[id(x)] for x in rel], "cancelled": [self.pos[id(x)] for x in can]}
             elif name == "releasable":
-                ret = [self.pos[id(x)] for x in self.tg.get_releasable_tasks()]
+                ret = [self.pos[id(x)] for x in self.workload().get_releasable_tasks()]
             elif name == "schedulable":
+                # through the Workload, as the schedulers and the simulator ask (it delegates to the TaskGraph)
                 ret = [
                     self.pos[id(x)]
-                    for x in self.tg.get_schedulable_tasks(
+                    for x in self.workload().get_schedulable_tasks(
                         et(op["time"]),
                         et(op["lookahead"]),
                         False,
